@@ -60,8 +60,14 @@ def ops_for(cls, key, tier):
     ops.append(("set_lower_limits", "odd", key, 1.0))
     ops.append(("set_upper_limits", "dup", key, 1.0))
     ops += [("set_fixed", "kw", key, True), ("set_fixed", "kw", key, False), ("set_fixed", "kw", "no_such_key", True)]
-    ops += [("set_label", "", "", "abc"), ("set_label", "", "", " x1 "), ("set_label", "", "", "123"), ("set_label", "", "", "")]
+    ops += [("set_label", "", "", "abc"), ("set_label", "", "", " x1 "), ("set_label", "", "", "123"), ("set_label", "", "", ""), ("set_label", "", "", " 12 ")]
     ops += [("reset_parameter", "", key, None), ("reset_parameters", "", "", None)]
+    keys = sorted(cls.get_default_values().keys())
+    if len(keys) > 1:
+        k2 = keys[1]
+        d2 = cls.get_default_value(k2)
+        ops += [("set_values", "kw", k2, d2 * 2 if d2 else 0.5), ("set_fixed", "kw", k2, not cls.is_fixed_by_default(k2)),
+                ("reset_parameters", "mixed", (key, k2), None), ("reset_parameters", "pos", (key,), None), ("reset_parameters", "kwonly", (k2,), None)]
     ops += [("copy", "", "", None), ("deepcopy", "", "", None)]
     return ops
 
@@ -101,6 +107,10 @@ def apply_model(m: Model, op):
         m.v[key], m.lo[key], m.up[key], m.fx[key] = m.dv[key], m.dl[key], m.du[key], m.df[key]
         return None
     if name == "reset_parameters":
+        if form in ("mixed", "pos", "kwonly"):
+            for k in key:
+                m.v[k], m.lo[k], m.up[k], m.fx[k] = m.dv[k], m.dl[k], m.du[k], m.df[k]
+            return None
         m.v, m.lo, m.up, m.fx = dict(m.dv), dict(m.dl), dict(m.du), dict(m.df)
         return None
     return None
@@ -123,6 +133,12 @@ def apply_real(e, op):
     if name == "reset_parameter":
         return e.reset_parameter(key)
     if name == "reset_parameters":
+        if form == "mixed":
+            return e.reset_parameters(key[0], **{key[1]: True})
+        if form == "pos":
+            return e.reset_parameters(*key)
+        if form == "kwonly":
+            return e.reset_parameters(**{k: None for k in key})
         return e.reset_parameters()
     if name == "copy":
         return _copy.copy(e)
@@ -142,7 +158,7 @@ def repro_src(cls, seq):
         elif name == "reset_parameter":
             call = f"e.reset_parameter({key!r})"
         elif name == "reset_parameters":
-            call = "e.reset_parameters()"
+            call = {"mixed": f"e.reset_parameters({key[0]!r}, **{{{key[1] if len(key) > 1 else key[0]!r}: True}})" if isinstance(key, tuple) else "", "pos": f"e.reset_parameters(*{key!r})", "kwonly": f"e.reset_parameters(**{{k: None for k in {key!r}}})"}.get(form, "e.reset_parameters()")
         else:
             call = f"c = copy.{name}(e); assert (c.get_values(), c.get_lower_limits(), c.get_upper_limits(), c.are_fixed(), c.get_label()) == (e.get_values(), e.get_lower_limits(), e.get_upper_limits(), e.are_fixed(), e.get_label())"
         lines.append(call)
@@ -232,6 +248,36 @@ def run_class(args):
     return sym, evals, distinct, fails[:40], samples
 
 
+def label_contract_part(res, prop="C14"):
+    """Element.set_label over EVERY string of length <= 4 over the alphabet {' ', '1', '7', 'a', '_', '\t'} (exhaustive, bounded):
+    accepted iff the stripped label is not digits-only (and ASCII); stored stripped; a refused label leaves the old one."""
+    import itertools
+    from pyimpspec import Resistor
+    alphabet = [" ", "1", "7", "a", "_", "\t"]
+    n = 0
+    for L in range(0, 5):
+        for tup in itertools.product(alphabet, repeat=L):
+            lab = "".join(tup)
+            e = Resistor()
+            e.set_label("keep")
+            stripped = lab.strip()
+            should_refuse = stripped != "" and stripped.isdigit()
+            try:
+                e.set_label(lab)
+                got = None
+            except ValueError:
+                got = "ValueError"
+            n += 1
+            res.case(("label", lab), nontrivial=True)
+            if should_refuse and (got is None or e.get_label() != "keep"):
+                res.fail("set_label:digits-only-after-strip:accepted", "Element.set_label", f"set_label({lab!r}) was accepted and stored {e.get_label()!r}; a label that is only digits (after stripping) must be refused so that names like R_1 stay unambiguous",
+                         f"from pyimpspec import Resistor\ne = Resistor()\ntry:\n    e.set_label({lab!r})\nexcept ValueError:\n    raise SystemExit(0)\nraise SystemExit('accepted: ' + repr(e.get_label()))")
+            elif not should_refuse and (got is not None or e.get_label() != stripped):
+                res.fail("set_label:valid-label:refused-or-not-stripped", "Element.set_label", f"set_label({lab!r}) -> {got or e.get_label()!r}, expected stored label {stripped!r}",
+                         f"from pyimpspec import Resistor\ne = Resistor().set_label({lab!r})\nassert e.get_label() == {stripped!r}")
+    res.part("set_label_contract", strings=n, alphabet=alphabet, max_length=4)
+
+
 def main(a):
     import pyimpspec  # noqa
     from pyimpspec.circuit.registry import get_elements
@@ -249,6 +295,7 @@ def main(a):
             res.samples += samples[:1]
             for key, fn, what, repro in fails:
                 res.fail(key, fn, what, repro)
+    label_contract_part(res)
     return res
 
 
